@@ -80,12 +80,12 @@ def make_case(R):
     r = R.random()
     if r < 0.5:
         cfg = G.Cfg(filters=True, regex_functions=True, max_depth=1, max_segments=3, desc_p=0.12)
-        cfg.names = ["a", "b", "é", "\U0001F600", "a b", "x\"y", "", "0", "a  b", "a \t b", "x   y"]
+        cfg.names = ["a", "b", "é", "\U0001F600", "a b", "x\"y", "", "0", "a  b", "a \t b", "x   y", "e\u0301", "\u2126", "\u03a9", "\u212b", "\u00c5", "\uac00", "\u1100\u1161", "\ufb01"]
         q = G.QGen(R, cfg).query(root="$")
         text = G.render(q, R, ws=R.choice(["none", "sparse"]))
         rr = R.random()
         if rr < 0.7:
-            doc = D.doc_for(R, q, maxdepth=3, maxwidth=4, extra_names=("a", "b", "a b", "a  b", "x y", "x   y"))
+            doc = D.doc_for(R, q, maxdepth=3, maxwidth=4, extra_names=("a", "b", "a b", "a  b", "x y", "x   y", "e\u0301", "\u00e9", "\u2126", "\u03a9", "\u212b", "\u00c5", "\uac00", "\u1100\u1161", "fi", "\ufb01"))
         elif rr < 0.8:
             doc = R.choice([[], {}, None, 0, "", "é\U0001F600\n\"", 1.5, True, -0.0, 1e300, [1.0, 1, True, None, "1"]])
         elif rr < 0.9:
@@ -129,7 +129,10 @@ def make_case(R):
         return {"kind": "evaluation-error", "query": R.choice(["$..*", "$..[*]", "$..a", "$..[?@]", "$.*..*"]), "doc_value": doc, "doc_bytes": json.dumps(doc).encode(), "expect": "fail"}
     if r < 0.92:
         raw = R.choice([b"{", b"[1, 2", b"[1] x", b"", b"{'a': 1}", b"[1,]", b"nul", b"\"abc", b"[1] [2]", b"{\"a\" 1}",
-                        b"[1, 2\n", b"\n", b"{\"a\":\n", b"[1,\r\n", b"[\n\n", b"{\"a\": 1}\n]\n", b"\r\n\r\n", b"[1, 2\n\n\n"])
+                        b"[1, 2\n", b"\n", b"{\"a\":\n", b"[1,\r\n", b"[\n\n", b"{\"a\": 1}\n]\n", b"\r\n\r\n", b"[1, 2\n\n\n",
+                        # invalid only because of a raw control character inside a string or a member name
+                        b"[\"a\tb\"]", b"{\"a\nb\": 1}", b"[\"\x01\"]", b"{\"k\": \"line1\nline2\"}", b"[\"\x1f\"]", b"[\"a\rb\"]", b"{\"\x00\": 0}",
+                        b"{\"a\": 1,}", b"[1 2]", b"[01]", b"[1.]", b"[.5]", b"[+1]", b"['a']", b"[\"\\x\"]", b"\xef\xbb\xbf[1"])
         return {"kind": "invalid-json", "query": "$", "doc_value": None, "doc_bytes": raw, "expect": "fail"}
     raw = R.choice([b"\"\xff\"", b"[\"\xc3\x28\"]", b"\xff\xfe[", b"{\"a\": \"\xf0\x28\x8c\x28\"}", b"\x80"])
     return {"kind": "undecodable", "query": "$", "doc_value": None, "doc_bytes": raw, "expect": "fail", "file_only": True}
